@@ -134,6 +134,10 @@ def check_naive_matching(matcher, pred, refa, M):
 
 
 def check_merge_matching(matcher, pred, refa, order):
+    """C14.  The statement describes a process (seed with a prediction that meets the threshold alone, then merge
+    only on strict improvement); what is observable is the assignment.  It is accepted iff for every matched
+    reference SOME order of its predictions is such a process (the insertion order of the label map is tried
+    first; an implementation is free to build its label map in any order)."""
     ctx = S.ctx
     metric = metric_name(_need(matcher, "_matching_metric"))
     thr = float(_need(matcher, "_matching_threshold"))
@@ -141,13 +145,32 @@ def check_merge_matching(matcher, pred, refa, order):
     pi, ri = ref.instances_of(ref.vox(pred)), ref.instances_of(ref.vox(refa))
     table = ref.score_table(metric, ri, pi, ndim)
     exact = metric in ("IOU", "DSC")
+    dec = ref.METRIC_DECREASING[metric]
     ctx.count("C14.checked")
     per_ref: dict = {}
     for p, r in order:
         per_ref.setdefault(r, []).append(p)
     assigned = dict(order)
-    feats = {"metric": metric, "decreasing": ref.METRIC_DECREASING[metric]}
+    feats = {"metric": metric, "decreasing": dec}
     det = {"order": order, "pred": pred, "ref": refa, "matcher": matcher_desc(matcher)}
+
+    def sc(R, U):
+        return ref.score_exact(metric, R, frozenset(U)) if exact else ref.score(metric, R, frozenset(U), ndim)
+
+    def eligible(x):
+        v = float(x) if exact else x
+        if not exact and not S.exact and ref.near(v, thr):
+            return True  # guard band: either decision accepted
+        return ref.meets(metric, v, thr)
+
+    def improves(new, old):
+        if exact or S.exact:
+            return new < old if dec else new > old
+        if abs(new - old) <= ref.TOL * max(1.0, abs(old)):
+            ctx.count("C14.skipped_near_equal_step")
+            return True  # guard band
+        return ref.strictly_better(metric, new, old)
+
     for r, ps in per_ref.items():
         if r not in ri or any(p not in pi for p in ps):
             ctx.viol("assignment_names_unknown_label", det, prop="C14", features=feats)
@@ -155,43 +178,79 @@ def check_merge_matching(matcher, pred, refa, order):
         R = ri[r]
         if len(ps) > 1:
             ctx.count("f:C14.ref_with_merge")
-        # first prediction must meet the threshold on its own
-        U = set(pi[ps[0]])
-        s_prev = ref.score(metric, R, frozenset(U), ndim)
-        e_prev = ref.score_exact(metric, R, frozenset(U)) if exact else None
-        if not (not exact and (S.exact is False) and ref.near(s_prev, thr)):
-            if not ref.meets(metric, s_prev, thr):
-                ctx.viol("matched_without_single_eligible_prediction", dict(det, ref_label=r, first=ps[0], score=s_prev), prop="C14", features=feats)
-        for p in ps[1:]:
+        ctx.count("C14.merge_steps", len(ps) - 1)
+
+        def valid(seq):
+            U = set(pi[seq[0]])
+            cur = sc(R, U)
+            if not eligible(cur):
+                return False
+            for p in seq[1:]:
+                U |= pi[p]
+                nxt = sc(R, U)
+                if not improves(nxt, cur):
+                    return False
+                cur = nxt
+            return True
+
+        ok = valid(ps)
+        if not ok:
+            ctx.count("C14.info.insertion_order_is_not_a_valid_process")  # information only (see docstring)
+        if not ok:  # the documented processing order: best single score first
+            singles_f = {p: float(sc(R, pi[p])) for p in ps}
+            ok = valid(sorted(ps, key=lambda p: singles_f[p], reverse=not dec))
+            if ok:
+                ctx.count("C14.accepted_in_another_order")
+        if not ok and len(ps) > 16:
+            ctx.count("C14.skipped_too_many_fragments")
+            continue
+        if not ok:
+            # is there any order that is a seed-then-strictly-improving process?  (DFS with memoised dead ends)
+            dead = set()
+
+            def dfs(used, U, cur):
+                if len(used) == len(ps):
+                    return True
+                key = frozenset(used)
+                if key in dead:
+                    return False
+                for p in ps:
+                    if p in used:
+                        continue
+                    U2 = U | pi[p]
+                    nxt = sc(R, U2)
+                    if improves(nxt, cur) and dfs(used | {p}, U2, nxt):
+                        return True
+                dead.add(key)
+                return False
+
+            for p0 in ps:
+                s0 = sc(R, pi[p0])
+                if eligible(s0) and dfs({p0}, set(pi[p0]), s0):
+                    ok = True
+                    ctx.count("C14.accepted_in_another_order")
+                    break
+        U = set()
+        for p in ps:
             U |= pi[p]
-            s_new = ref.score(metric, R, frozenset(U), ndim)
-            ctx.count("C14.merge_steps")
-            if exact:
-                e_new = ref.score_exact(metric, R, frozenset(U))
-                bad = not (e_new > e_prev)
-                e_prev = e_new
-            else:
-                if abs(s_new - s_prev) <= ref.TOL * max(1.0, abs(s_prev)) and not S.exact:
-                    ctx.count("C14.skipped_near_equal_step")
-                    bad = False
-                else:
-                    bad = not ref.strictly_better(metric, s_new, s_prev) if not S.exact else not (
-                        s_new < s_prev if ref.METRIC_DECREASING[metric] else s_new > s_prev
-                    )
-            if bad:
-                ctx.viol("merge_without_strict_improvement", dict(det, ref_label=r, added=p, before=s_prev, after=s_new), prop="C14", features=feats)
-            s_prev = s_new
+        final = sc(R, U)
+        finalf = float(final) if exact else final
+        if not ok:
+            singles = {p: float(sc(R, pi[p])) for p in ps}
+            kind = "matched_without_single_eligible_prediction" if not any(eligible(sc(R, pi[p])) for p in ps) else "merge_without_strict_improvement"
+            ctx.viol(kind, dict(det, ref_label=r, predictions=ps, single_scores=singles, final=finalf), prop="C14", features=feats)
+            continue
         # final score: meets threshold, at least as good as every single candidate that was free for r
-        if not ref.near(s_prev, thr) or exact:
-            if not ref.meets(metric, s_prev, thr):
-                ctx.viol("final_score_misses_threshold", dict(det, ref_label=r, final=s_prev), prop="C14", features=feats)
-        for (rr, q), s in table.items():
+        if exact or not ref.near(finalf, thr):
+            if not ref.meets(metric, finalf, thr):
+                ctx.viol("final_score_misses_threshold", dict(det, ref_label=r, final=finalf), prop="C14", features=feats)
+        for (rr, q), s_ in table.items():
             if rr != r:
                 continue
             if q in assigned and assigned[q] != r:
                 continue
-            if not ref.better_or_equal(metric, s_prev, s):
-                ctx.viol("final_score_worse_than_best_single_candidate", dict(det, ref_label=r, final=s_prev, candidate=q, candidate_score=s), prop="C14", features=feats)
+            if not ref.better_or_equal(metric, finalf, s_):
+                ctx.viol("final_score_worse_than_best_single_candidate", dict(det, ref_label=r, final=finalf, candidate=q, candidate_score=s_), prop="C14", features=feats)
                 break
     # references that stay unmatched although a free single prediction is eligible are not
     # excluded by the statement of C14 (it bounds merging, not maximality) -> not judged
